@@ -8,7 +8,7 @@ from jv import drive, real, rulegen as RG
 LEVEL = "exploration"
 RULE = ("S-syn listings with planted runs of identical instructions and repeated blocks x rules whose items/groups carry "
         "`times` (integer, {min,max}, min only, max only; body spelling for operand-less items, sibling spelling for items "
-        "with operands and for $and/$or/$not/$and_any_order groups), bounds chosen at the edges of the planted run "
+        "with operands and for $and/$or/$not/$and_any_order groups, also $or groups with times inside operand lists), bounds chosen at the edges of the planted run "
         "(r-1, r, r+1). Two oracles per execution: (1) R-dsl differential on found / leftmost start / hit windows; "
         "(2) model-free twin: the same rule with every top-level repeated element written out n times (or as an $or of the "
         "written-out lengths when max-min<=3), executed on the real code and compared on verdict and first address. "
@@ -20,7 +20,7 @@ QUIRKS = []
 
 
 def feat(rng):
-    return RG.Feat(operands=0.5, times_item=0.6, groups=0.3, nots=0.08, group_times=0.7,
+    return RG.Feat(operands=0.5, times_item=0.6, groups=0.3, nots=0.08, group_times=0.7, ogroups=0.25,
                    max_depth=1, max_spine=rng.choice([1, 2, 3]))
 
 
